@@ -58,7 +58,7 @@ func c06Standalone(r *core.Run) {
 				if cur == nil || cur.Fault != "" || t.Choose(10, "broker-fault") >= faultRate {
 					return "ack"
 				}
-				k := core.Pick(t, "broker-fault-kind", "refuse", "nack", "hangup")
+				k := core.Pick(t, "broker-fault-kind", "refuse", "nack", "hangup", "drop", "chanclose", "lostack")
 				cur.Fault = "amqp-" + k
 				r.Fault("audit-amqp-" + k)
 				return k
